@@ -110,9 +110,14 @@ func (c *Conn) ReadFrom(r io.Reader) (int64, error) {
 	}
 }
 
-// Close closes the connection.
+// Close closes the connection and the buckets that were created for it.
 // Any blocked Read or Write operations will be unblocked and return errors.
 func (c *Conn) Close() error {
+	// The per-connection buckets are owned by this connection.
+	for _, bs := range c.LocalBuckets {
+		bs.ReadBucket.Close()
+		bs.WriteBucket.Close()
+	}
 	return c.conn.Close()
 }
 
